@@ -132,6 +132,13 @@ def accept(ctx, recs, byid, tag):
 
 def run(ctx):
     q = ctx.quick
+    import sys
+    sys.path.insert(0, os.path.dirname(os.path.abspath(__file__)))
+    import g_cancel
+    # a replay file of the cancellation leg: this check's own replay handling cannot read it
+    if ctx.replay and json.load(open(ctx.replay))["scenario"].get("leg") == "g2-cancel":
+        g_cancel.leg(ctx)
+        return
     # ---- 1. design: machine == contract, three-way agreement, order, termination
     mc = ctx.tlc("Echo", ctx.pick("MC_Echo_q.cfg", "MC_Echo_t.cfg"), timeout=3000, heap="12g")
     ctx.notes["mc_design"] = dict(distinct=mc.distinct, generated=mc.generated, cfg=ctx.pick("MC_Echo_q.cfg", "MC_Echo_t.cfg"))
@@ -290,3 +297,7 @@ def run(ctx):
                         "custom header names are prefixed x-v- (outside the protocol-reserved set); metadata outside that prefix is ignored when observing",
                         "the full_duplex flag of the first message agrees with the stream type (otherwise the documented client and server rules deadlock: MC_Echo_x_flag)",
                         "an e2e rejection is reported only when the same permutation is rejected three times (the next two runs, or three of up to 20 runs: schedule_dependent)"]
+    if not ctx.replay:
+        # growth item: EchoCancel.tla (client cancellation and timeouts) bound to the reference and grpc-go peers
+        g_cancel.leg(ctx)
+        ctx.cov["rule"] += " " + ctx.notes.pop("g2_rule", "")
